@@ -13,15 +13,19 @@ VARIANTS = [
      'edits': [(L, "for i in range(num_steps + 1):", "for i in range(num_steps):")]},
     {'name': 'grid-truncating-count', 'rule': 'C10.R1',
      'edits': [(L, "num_steps = int((max_ - min_) / step + 1e-9)", "num_steps = int((max_ - min_) / step)")]},
-    {'name': 'revert-fix-F9-window-filter', 'rule': 'C10.R2',
-     'edits': [(O, """                rest = (ph - round(Decimal(window[0]), 3)) % delta
-                if min(rest, delta - rest) < Decimal("0.005"):""", """                if ph % delta < 0.05 or ph % delta > 0.95:""")]},
+    {'name': 'revert-fix-F9-F27-modulus-filter-with-literals', 'rule': 'C10.R2',
+     'edits': [(O, """                k = round((ph - w_min) / w_step) if w_step > 0 else 0
+                if w_step <= 0 or abs(ph - (w_min + k * w_step)) < tol:""", """                if ph % w_step < 0.05 or ph % w_step > 0.95:""")]},
     {'name': 'window-origin-ignored', 'rule': 'C10.R2',
-     'edits': [(O, "rest = (ph - round(Decimal(window[0]), 3)) % delta", "rest = ph % delta")]},
+     'edits': [(O, "abs(ph - (w_min + k * w_step)) < tol", "abs(ph - k * w_step) < tol")]},
     {'name': 'window-tolerance-too-wide', 'rule': 'C10.R2',
-     'edits': [(O, 'Decimal("0.005")', 'Decimal("0.05")')]},
+     'edits': [(O, "        tol = 1e-6\n", "        tol = 0.05\n")]},
     {'name': 'window-exclusive-upper', 'rule': 'C10.R2',
-     'edits': [(O, "if ph >= window[0] and ph <= window[1]:", "if ph >= window[0] and ph < window[1]:")]},
+     'edits': [(O, "if w_min - tol <= ph <= w_max + tol:", "if w_min - tol <= ph and ph < w_max:")]},
+    {'name': 'revert-fix-F27-step-rounded', 'rule': 'C10.R2',
+     'edits': [(O, "        w_min, w_max, w_step = (float(x) for x in window)\n", "        w_min, w_max, w_step = (float(x) for x in window)\n        w_step = float(round(Decimal(window[2]), 2))\n")]},
+    {'name': 'revert-fix-F26-decimal-vs-float-bounds', 'rule': 'C10.R2',
+     'edits': [(O, "            if w_min - tol <= ph <= w_max + tol:", "            ph = round(Decimal(ph), 3)\n            if ph >= window[0] and ph <= window[1]:\n                ph = float(ph)")]},
     {'name': 'optimum-max', 'rule': 'C10.R3',
      'edits': [(M, "opt = min(opt, point, key=lambda v: v[1])", "opt = max(opt, point, key=lambda v: v[1])")]},
     {'name': 'optimum-key-on-ph', 'rule': 'C10.R3',
